@@ -24,7 +24,7 @@ impl SwiftField for Field52A {
     where
         Self: Sized,
     {
-        let lines: Vec<&str> = input.lines().collect();
+        let lines: Vec<&str> = input.split('\n').collect();
 
         if lines.is_empty() {
             return Err(ParseError::InvalidFormat {
@@ -101,7 +101,7 @@ impl SwiftField for Field52B {
             });
         }
 
-        let lines: Vec<&str> = input.lines().collect();
+        let lines: Vec<&str> = input.split('\n').collect();
         let mut party_identifier = None;
         let mut location = None;
         let mut current_idx = 0;
@@ -144,7 +144,15 @@ impl SwiftField for Field52B {
                     message: "Field 52B location exceeds 35 characters".to_string(),
                 });
             }
-            if !loc.is_empty() {
+            if loc.is_empty() {
+                // an empty location is only the absent location of a content that ends with the
+                // party identifier; a line break followed by nothing is not a location
+                if current_idx > 0 {
+                    return Err(ParseError::InvalidFormat {
+                        message: "Field 52B location line is empty".to_string(),
+                    });
+                }
+            } else {
                 parse_swift_chars(loc, "Field 52B location")?;
                 location = Some(loc.to_string());
             }
@@ -232,7 +240,7 @@ impl SwiftField for Field52D {
     where
         Self: Sized,
     {
-        let lines: Vec<&str> = input.lines().collect();
+        let lines: Vec<&str> = input.split('\n').collect();
 
         if lines.is_empty() {
             return Err(ParseError::InvalidFormat {
